@@ -659,8 +659,8 @@ v("C13", "dump-renames-shape-key", "fire", T,
 v("C13", "dump-root-not-list", "fire", T,
   "                'root': [root_dict]", "                'root': root_dict", "C13.R1")
 v("C13", "fiber2dict-renames-payloads", "fire", F,
-  "                       'payloads': [Payload.payload2dict(p) for p in self.payloads]",
-  "                       'values': [Payload.payload2dict(p) for p in self.payloads]", "C13.R1")
+  "              'payloads': [Payload.payload2dict(p) for p in self.payloads]}}",
+  "              'values': [Payload.payload2dict(p) for p in self.payloads]}}", "C13.R1")
 v("C13", "makeFiber-literal-zero", "fire", F,
   "        zipped = [(c, p) for c, p in enumerate(payload_list) if p != default]",
   "        zipped = [(c, p) for c, p in enumerate(payload_list) if p != 0]", "C13.R2")
